@@ -53,6 +53,7 @@ Launch(r) ==
 (*                descendant of one                                          *)
 (*   o.unmarked   number of processes launched as a sidecar that do not find *)
 (*                GO_TELEMETRY_CHILD=1 in their environment                   *)
+(*   o.freshRemoved  a token that was fresh before is gone or replaced after  *)
 (*   o.launched   number of processes of any kind launched, transitively     *)
 (*   o.acquired   the starter created / replaced the token file              *)
 (*   o.wrote      classes of files created, changed or removed               *)
@@ -65,12 +66,21 @@ Launch(r) ==
 (*                of the application (it asserts that an ancestor holds the  *)
 (*                token)                                                     *)
 (*   e.appCrash   the application crashes right after Start                  *)
-Extras == [calls : 1..3, dbg : {"absent", "dir", "file"}, leak : BOOLEAN, appCrash : BOOLEAN]
-DefaultExtras == [calls |-> 1, dbg |-> "absent", leak |-> FALSE, appCrash |-> FALSE]
+(*   e.startFail  the start of the sidecar itself fails: "logdir" (the log   *)
+(*                file debug/sidecar.log cannot be opened: it is a           *)
+(*                directory), "dbgloop" (the debug directory cannot be       *)
+(*                examined: a symlink loop), "noexe" (the executable cannot  *)
+(*                be started: it was removed); "none" otherwise              *)
+StartFails == {"none", "logdir", "dbgloop", "noexe"}
+Extras == [calls : 1..3, dbg : {"absent", "dir", "file"}, leak : BOOLEAN, appCrash : BOOLEAN, startFail : StartFails]
+DefaultExtras == [calls |-> 1, dbg |-> "absent", leak |-> FALSE, appCrash |-> FALSE, startFail |-> "none"]
 Applicable(r, e) == /\ e.calls > 1 => r.marker \in {"unset", "2"}      \* a sidecar never returns from Start
                     /\ e.leak => r.marker = "unset"
                     /\ e.appCrash => r.marker = "unset" /\ r.crash
-OneFactor(e) == Cardinality({f \in DOMAIN e : e[f] # DefaultExtras[f]}) <= 1
+                    /\ e.startFail # "none" => r.marker = "unset" /\ ~e.leak /\ ~e.appCrash
+                    /\ e.startFail = "logdir" => e.dbg = "dir"
+                    /\ e.startFail = "dbgloop" => e.dbg = "absent"
+OneFactor(e) == Cardinality({f \in DOMAIN e : e[f] # DefaultExtras[f]} \ (IF e.startFail = "logdir" THEN {"dbg"} ELSE {})) <= 1
 
 (* "launches a child process only if the mode is not off and crash          *)
 (*  reporting or an acquired upload token calls for one"                     *)
@@ -100,12 +110,17 @@ OffIsInert(r, e, o) == r.mode = "off" => o.launched = 0 /\ o.wrote \subseteq Off
 (* take the token is not said by the property; the table says it does not,  *)
 (* and a disagreement there is a divergence, not a violation.)              *)
 TokenOncePer24h(r, e, o) == o.acquired => r.token # "fresh"
+(* a token younger than 24 h is what keeps everybody else from uploading:   *)
+(* no start removes or replaces it, whatever else goes wrong (if it were    *)
+(* removed the next starter would acquire a second time within 24 hours     *)
+(* with no stale token ever present)                                         *)
+FreshTokenKept(r, e, o) == ~o.freshRemoved
 (* ... also over several starts: with no stale token present, all the       *)
 (* starts together get at most one uploader sidecar on the strength of a    *)
 (* token of their own                                                        *)
 AtMostOneUploader(r, e, o) == (r.token # "stale" /\ ~e.leak) => (IF r.token = "fresh" THEN 1 ELSE 0) + o.uploaders <= 1
 
-Clauses == {"OnlyIfCalledFor", "UploaderNeedsToken", "NeverRecursive", "OffIsInert", "TokenOncePer24h", "AtMostOneUploader", "ChildIsMarked"}
+Clauses == {"OnlyIfCalledFor", "UploaderNeedsToken", "NeverRecursive", "OffIsInert", "TokenOncePer24h", "AtMostOneUploader", "ChildIsMarked", "FreshTokenKept"}
 Holds(c, r, e, o) == CASE c = "OnlyIfCalledFor"     -> OnlyIfCalledFor(r, e, o)
                        [] c = "UploaderNeedsToken"  -> UploaderNeedsToken(r, e, o)
                        [] c = "NeverRecursive"      -> NeverRecursive(r, e, o)
@@ -113,12 +128,15 @@ Holds(c, r, e, o) == CASE c = "OnlyIfCalledFor"     -> OnlyIfCalledFor(r, e, o)
                        [] c = "TokenOncePer24h"     -> TokenOncePer24h(r, e, o)
                        [] c = "AtMostOneUploader"   -> AtMostOneUploader(r, e, o)
                        [] c = "ChildIsMarked"       -> ChildIsMarked(r, e, o)
+                       [] c = "FreshTokenKept"      -> FreshTokenKept(r, e, o)
 
 (* the outcome the table predicts for ONE start, in the vocabulary of the   *)
 (* clauses; a sidecar that uploads in mode "on" runs the go command once    *)
 (* (config download), which is a launched process but not a sidecar          *)
 Predicted1(r, e) ==
-  LET d == Launch(r)
+  LET d0 == Launch(r)
+      \* a start that fails launches nobody; a token acquired for it stays where it is
+      d == IF e.startFail = "none" THEN d0 ELSE [d0 EXCEPT !.child = FALSE, !.upload = FALSE]
       up == d.child /\ (d.upload \/ e.leak)
       goes == IF r.mode = "on" /\ (up \/ (r.marker = "1" /\ r.upload)) THEN 1 ELSE 0
       logs == e.dbg = "dir" /\ d.child       \* the parent opens debug/sidecar.log for the child
@@ -126,13 +144,14 @@ Predicted1(r, e) ==
        uploaders |-> IF up THEN 1 ELSE 0,
        nested    |-> 0,
        unmarked  |-> 0,
+       freshRemoved |-> FALSE,
        launched  |-> (IF d.child THEN 1 ELSE 0) + goes,
        acquired  |-> d.acquired,
        wrote     |-> d.wrote \cup (IF logs THEN {"debuglog"} ELSE {}) ]
 (* what the next start finds *)
 After(r) == [r EXCEPT !.token = IF Acquires(r) THEN "fresh" ELSE r.token]
 Plus(a, b) == [ sidecars |-> a.sidecars + b.sidecars, uploaders |-> a.uploaders + b.uploaders, nested |-> a.nested + b.nested,
-                unmarked |-> a.unmarked + b.unmarked,
+                unmarked |-> a.unmarked + b.unmarked, freshRemoved |-> a.freshRemoved \/ b.freshRemoved,
                 launched |-> a.launched + b.launched, acquired |-> a.acquired \/ b.acquired, wrote |-> a.wrote \cup b.wrote ]
 RECURSIVE PredictedN(_, _, _)
 PredictedN(r, e, k) == IF k <= 1 THEN Predicted1(r, e) ELSE Plus(Predicted1(r, e), PredictedN(After(r), e, k - 1))
@@ -150,7 +169,7 @@ MayWrite(r, e) == (IF UploaderRuns(r, e) /\ r.mode # "off" /\ r.localOK THEN {"u
 (* exact agreement of an outcome with the table *)
 Conforms(r, e, o) == LET p == Predicted(r, e) IN
                      /\ o.sidecars = p.sidecars /\ o.uploaders = p.uploaders
-                     /\ o.nested = 0 /\ o.unmarked = 0 /\ o.launched = p.launched
+                     /\ o.nested = 0 /\ o.unmarked = 0 /\ ~o.freshRemoved /\ o.launched = p.launched
                      /\ o.acquired = p.acquired
                      /\ p.wrote \subseteq o.wrote
                      /\ o.wrote \subseteq p.wrote \cup MayWrite(r, e)
